@@ -55,8 +55,13 @@ GInvoke(G, ev) ==
   IN [G |-> [G EXCEPT !.S = r.S, !.halted = (ex = "none")], out |-> r.out,
       halt |-> (ex = "none"), haltKnown |-> TRUE, exec |-> ex, oc |-> "invoke"]
 
+\* the debugged program exits (it may be run again in the same session): nothing the tool knows changes - connections
+\* are closed by their destruction, not by this - and nothing is printed
+GExit(G, ev) == [G |-> G, out |-> <<>>, halt |-> FALSE, haltKnown |-> TRUE, exec |-> "none", oc |-> "exit"]
+
 GStep(G, ev) ==
   CASE ev.e = "hit"     -> GHit(G, ev)
+    [] ev.e = "exit"    -> GExit(G, ev)
     [] ev.e = "destroy" -> GDestroy(G, ev)
     [] ev.e = "invoke"  -> GInvoke(G, ev)
 
@@ -69,7 +74,7 @@ GStateOk(G)   == StateOk(G.S) /\ PmapIsOpen(G) /\ OpenIsPmap(G)
 \* every event leaves the connections it does not concern exactly as they were
 Untouched(G, H, ev) ==
   \A k \in 1..Len(G.S.conns) :
-     (ev.e = "invoke" \/ G.S.conns[k].tag # ev.addr \/ ~G.S.conns[k].open) => H.S.conns[k] = G.S.conns[k]
+     (ev.e \in {"invoke", "exit"} \/ G.S.conns[k].tag # ev.addr \/ ~G.S.conns[k].open) => H.S.conns[k] = G.S.conns[k]
 \* a connection at an address seen again after its destruction is a new connection: next name, empty table
 FreshOnReuse(G, H, ev) ==
   (ev.e = "hit" /\ ev.addr \notin DOMAIN G.pmap) =>
@@ -93,7 +98,7 @@ CommandOutcome(G, r, ev) ==
 \* whether the program is halted afterwards is what the step says: a hit or a command decides it, the destruction of a
 \* connection neither halts the program nor lets it go
 HaltedConsistent(G, r, ev) ==
-  IF ev.e = "destroy" THEN r.G.halted = G.halted /\ ~r.halt ELSE r.G.halted = r.halt
+  IF ev.e \in {"destroy", "exit"} THEN r.G.halted = G.halted /\ ~r.halt ELSE r.G.halted = r.halt
 GStepOk(G, r, ev) == HaltedConsistent(G, r, ev) /\ Untouched(G, r.G, ev) /\ FreshOnReuse(G, r.G, ev) /\ CloseOnDestroy(G, r.G, ev)
                      /\ HaltIff(G, r, ev) /\ CommandOutcome(G, r, ev) /\ HistoryAppendOnly(G.S, r.G.S)
                      /\ NoResurrectionStep(G.S, r.G.S)
